@@ -38,7 +38,8 @@ def _fill_check(present, n, first_open_seed, rng):
     return None
 
 
-def _store(n, tf='5m'):
+def _store(n, tf='5m', skip=None):
+    """n stored candles; skip=(a, b): the stream skipped b periods after row a (timestamps stay strictly increasing)"""
     from native.world import session
     from jesse.store import store
     session('futures', symbols=('BTC-USDT',), timeframe=tf)
@@ -46,15 +47,16 @@ def _store(n, tf='5m'):
     step = 300000 if tf == '5m' else 60000
     ts0 = 1609459200000
     for j in range(n):
-        store.candles.add_candle(np.array([ts0 + j * step, 10.0 + j, 11.0 + j, 12.0 + j, 9.0 + j, 1.0]), 'Sandbox', 'BTC-USDT', tf,
+        jj = j + (skip[1] if skip and j > skip[0] else 0)
+        store.candles.add_candle(np.array([ts0 + jj * step, 10.0 + j, 11.0 + j, 12.0 + j, 9.0 + j, 1.0]), 'Sandbox', 'BTC-USDT', tf,
                                  with_execution=False, with_generation=False)
     return store, ts0, step
 
 
-def _add_check(n, k, newer=False):
-    store, ts0, step = _store(n)
+def _add_check(n, k, newer=False, skip=None):
+    store, ts0, step = _store(n, skip=skip)
     before = store.candles.get_storage('Sandbox', 'BTC-USDT', '5m')[:].copy()
-    ts = ts0 + (n if newer else k) * step
+    ts = (before[-1][0] + step) if newer else before[k][0]
     c = np.array([ts, 500.0, 501.0, 502.0, 499.0, 77.0])
     try:
         store.candles.add_candle(c, 'Sandbox', 'BTC-USDT', '5m', with_execution=False, with_generation=False)
@@ -138,6 +140,11 @@ def replay(pl):
             d = _add_check(n, k, newer='newer' in ob or 'empty' in ob)
             if d:
                 return {'confirmed': True, 'detail': d}
+        # stores with a skipped stretch (the invariant is strictly increasing timestamps, not contiguity)
+        for n, k, skip in ((6, 1, (3, 2)), (10, 2, (5, 3)), (25, 4, (10, 7)), (25, 20, (3, 1)), (8, 0, (0, 4))):
+            d = _add_check(n, k, newer='newer' in ob or 'empty' in ob, skip=skip)
+            if d:
+                return {'confirmed': True, 'detail': f'store with {skip[1]} periods skipped after row {skip[0]}: ' + d}
         return {'confirmed': False, 'detail': 'real add_candle appends / replaces as specified for store sizes 1..45 and every probed row'}
     if ob.startswith('add_multiple'):
         for n in (0, 3, 5, 8, 20, 21, 40):
